@@ -60,6 +60,7 @@ type Tokenizer struct {
 	isLast           bool
 	last             rune
 	lastIsSlash      bool
+	inLiteral        bool
 	tok              chan Token
 	tokenAvail       int
 	token            [2]Token
@@ -235,7 +236,9 @@ func (t *Tokenizer) run(tokens chan<- Token) {
 		case '"':
 			tokens <- t.readStr()
 		case '\'':
+			t.inLiteral = true
 			image := t.readSkip(func(c rune) bool { return c != '\'' }, false)
+			t.inLiteral = false
 			t.next(false)
 			tokens <- Token{tIdent, image, t.getLine()}
 		case '⁰':
@@ -386,6 +389,13 @@ func (t *Tokenizer) peek(skipComment bool) rune {
 			continue
 		}
 
+		// the typographic aliases are not replaced inside of string literals and quoted identifiers
+		if t.inLiteral {
+			t.isLast = true
+			t.str = t.str[size:]
+			return t.last
+		}
+
 		switch t.last {
 		case '•':
 			t.last = '*'
@@ -440,6 +450,8 @@ func (t *Tokenizer) readSkip(valid func(c rune) bool, skipComment bool) string {
 }
 
 func (t *Tokenizer) readStr() Token {
+	t.inLiteral = true
+	defer func() { t.inLiteral = false }()
 	str := strings.Builder{}
 	for {
 		if c := t.next(false); c != '"' {
